@@ -2104,6 +2104,32 @@ def function_witnesses() -> dict[str, Any]:
         "call_shared3": {"o1": r3["u"] + r3["v"], "o2": r3["w"]},
         "call_shared_param": {"out": rp["u"] - rp["v"]},
     }
+    # NESTED calls: ONE definition g (the same object) is called from inside the body of
+    # another function and also directly by the caller, in both operand orders, and through
+    # two levels -- a function is entered once however it is reached, and each node of its
+    # body is mapped once (the visited-function state is shared by the callee mappers)
+    def g(a: Any) -> Any:
+        return pt.sin(a) * 3.0 + a
+    gdef = pt.trace_call(g, x)._container.function
+
+    def call_g(a: Any) -> Any:
+        return gdef(**{"in__pt_0": a})
+
+    def f(a: Any) -> Any:
+        return call_g(a + 1.0) * 2.0
+    fdef = pt.trace_call(f, x)._container.function
+
+    def call_f(a: Any) -> Any:
+        return fdef(**{"in__pt_0": a})
+
+    def h(a: Any) -> Any:
+        return call_f(a) - call_g(a)
+    W.update({
+        "call_nested_first": {"out": call_f(x) + call_g(y)},
+        "call_nested_last": {"out": call_g(y) + call_f(x)},
+        "call_nested_two_outputs": {"a": call_f(x), "b": call_g(y), "z": call_g(x * y)},
+        "call_nested_depth2": {"out": pt.trace_call(h, x) + call_g(y) * call_f(y)},
+    })
     return {k: pt.make_dict_of_named_arrays(v) for k, v in W.items()}
 
 
